@@ -5,7 +5,7 @@
    All theorems are unbounded in the number of rows, columns, key columns and entry lengths. *)
 From Coq Require Import ZArith List Bool Permutation Sorted.
 From EV Require Import Res Arr StableSort StableSortProofs FilterIndex FilterIndexSpec
-                       FilterIndexKernels FilterIndexSort FilterIndexFrames
+                       FilterIndexKernels FilterIndexSort FilterIndexFrames FilterIndexCompose
                        FrameHist FrameHistSpec FrameHistP.
 Import ListNotations.
 Open Scope Z_scope.
@@ -202,3 +202,40 @@ Theorem c09_call_after_any_history : forall evs w w1 s w2,
   run_fhist w evs = Ok w1 -> spec_call w1 s = Some w2 -> run_fhist w (evs ++ [FCall s]) = Ok w2.
 Proof. exact fhist_call_after_any_history_pf. Qed.
 Print Assumptions c09_call_after_any_history.
+
+(* ---- algebra of row selections (Proofs/FilterIndexCompose.v) -------------------------------- *)
+(* full: apply_index after apply_index (or after a sort / filter, whose positions are `ps`) is one
+   apply_index through the composed positions, for any column content and any in-range qs *)
+Theorem c09_select_composes : forall (l:list (list Z)) (ps qs:list Z),
+  in_range (len ps) qs = true ->
+  gather [] (gather [] l ps) qs = gather [] l (gather 0 ps qs).
+Proof. intros l ps qs. exact (gather_gather_proof [] l ps qs). Qed.
+Print Assumptions c09_select_composes.
+
+(* full: a filter with one entry per selected row applied after any selection keeps exactly the
+   rows at the surviving positions *)
+Theorem c09_filter_after_select : forall (l:list (list Z)) (ps:list Z) (m:list bool),
+  len m = len ps ->
+  gather [] (gather [] l ps) (sel m) = gather [] l (gather 0 ps (sel m)).
+Proof. intros l ps m. exact (filter_after_select_proof [] l ps m). Qed.
+Print Assumptions c09_filter_after_select.
+
+Example c09_select_composes_ex :
+  in_range (len [2; 0; 1]) [1; 1; 2] = true /\
+  gather [] (gather [] [[10]; [20]; [30]] [2; 0; 1]) [1; 1; 2] = [[10]; [10]; [20]] /\
+  gather 0 [2; 0; 1] [1; 1; 2] = [0; 0; 1] /\
+  gather [] (gather [] [[10]; [20]; [30]] [2; 0; 1]) (sel [true; false; true]) = [[30]; [20]].
+Proof. vm_compute. repeat split; reflexivity. Qed.
+
+(* the range hypothesis is needed: an out-of-range position reads the default in the two-step
+   form but row 0 of the source in the composed form (the implementation rejects both: c09_*_oob) *)
+Example c09_select_composes_needs_range :
+  gather [] (gather [] [[10]; [20]] [1]) [5] = [[]] /\ gather [] [[10]; [20]] (gather 0 [1] [5]) = [[10]].
+Proof. vm_compute. split; reflexivity. Qed.
+
+(* full: selecting rows commutes with any per-cell transformation (decode, cast, escape ...) *)
+Theorem c09_select_commutes_with_cell_map : forall (f:list Z -> list Z) (l:list (list Z)) (ps:list Z),
+  in_range (len l) ps = true ->
+  gather [] (map f l) ps = map f (gather [] l ps).
+Proof. intros f l ps. exact (gather_map_proof f [] [] l ps). Qed.
+Print Assumptions c09_select_commutes_with_cell_map.
